@@ -1101,9 +1101,9 @@ CHECKS = {
     "C08": {
         "bin": "c08",
         "level": "fault_enumeration",
-        "max_par": 20,
-        "quick": {"shards": 20, "budget_s": 35, "min_evaluations": 100},
-        "thorough": {"shards": 20, "budget_s": 1500, "min_evaluations": 6000},
+        "max_par": 21,
+        "quick": {"shards": 21, "budget_s": 35, "min_evaluations": 100},
+        "thorough": {"shards": 21, "budget_s": 1500, "min_evaluations": 6000},
         "rule": (
             "19 (operation kind x state class) pairs on TA -> p -> c: ROA "
             "delta (steady / during roll), a REFUSED ROA delta (its only "
@@ -1146,6 +1146,16 @@ CHECKS = {
             "crash realisation the publication server must not load at a "
             "serial behind the one its notification file on disk already "
             "names. "
+            " Wave 6: a 21st pair runs the roll initiation on an instance "
+            "with more than five CAs (start-up then does not queue a "
+            "repository synchronisation for every CA, so a follow-up lost "
+            "between a command and its scheduling is not rescued by the "
+            "restart); cuts are checked in this order: the instants right "
+            "after a command of an aggregate was stored - first those where "
+            "the next mutation queues a task, latest command first, one per "
+            "kind of next mutation, at most half of the cuts - then distinct "
+            "mutation labels, then random ones (quick: 8 cuts per pair as "
+            "far as the time budget reaches)."
         ),
         "assumptions": COMMON_ASSUMPTIONS + [RP_ASSUMPTION,
             "a crash loses everything after a mutation boundary; torn "
@@ -1259,7 +1269,7 @@ CHECKS = {
             "and of CA p (directly under the trust anchor, signer exchange "
             "as separate tasks) is scripted as initiate / new-key "
             "certificate travels / activate / revocation travels; ONE "
-            "foreign operation sequence out of 17 kinds (ROA add, ROA "
+            "foreign operation sequence out of 18 kinds (ROA add, ROA "
             "remove, ASPA, BGPsec, parent shrinks or suspends the rolling "
             "CA, parent grows it, the rolling CA shrinks or suspends its "
             "child, a second initiate, an early or second activate, full "
@@ -1268,7 +1278,7 @@ CHECKS = {
             "shrinks / grows the rolling CA followed by a full "
             "synchronisation so that the new certificates arrive in that "
             "very stage) is "
-            "inserted at each of the 5 gaps: 2 x (1 + 17 x 5) = 172 cases, "
+            "inserted at each of the 5 gaps: 2 x (1 + 18 x 5) = 182 cases, "
             "all of them in the thorough tier (plus 600 seeded "
             "double insertions); the quick tier runs the 42 core cases "
             "(plain, entitlement change + sync, second initiate, early/"
@@ -1301,6 +1311,10 @@ CHECKS = {
             "bring the roll to the single-active-key state with an exact "
             "tree; a failed exchange waiting for krill's five-minute retry "
             "counts as outstanding work for the mid-roll exactness check."
+            " Wave 6: an 18th insertion kind gives a class up in the middle "
+            "of the roll (the rolling CA removes one of its two parents; the "
+            "CA under the trust anchor removes its child); it is among the "
+            "kinds run first in quick."
         ),
         "assumptions": COMMON_ASSUMPTIONS + [RP_ASSUMPTION,
             "orders of background tasks other than the ones the scripted "
